@@ -767,3 +767,57 @@ Qed.
 (* the header fuel is never the reason for an error *)
 Theorem read_header_no_fuel s : read_header s <> Err EFuel.
 Proof. unfold read_header. apply read_header_f_fuel. lia. Qed.
+
+(* ---------- the RTP header model never runs out of fuel (on byte strings) ---------- *)
+Lemma idx_byte d i b : all_bytes d = true -> idx d i = Some b -> 0 <= b < 256.
+Proof.
+  unfold idx, all_bytes. destruct (i <? 0); [discriminate|]. intros A H. apply nth_error_In in H.
+  rewrite forallb_forall in A. specialize (A b H). unfold is_byte in A. lia.
+Qed.
+
+Lemma ext_onebyte_fuel d f : forall curr endp, all_bytes d = true -> Z.max 0 (endp - curr) < Z.of_nat f ->
+  ext_onebyte f d curr endp <> HFuel.
+Proof.
+  induction f as [|f IH]; intros curr endp A F; cbn [ext_onebyte].
+  - lia.
+  - destruct (curr <? endp) eqn:E; [|discriminate].
+    destruct (idx d curr) as [b|] eqn:I; [|discriminate]. pose proof (idx_byte d curr b A I).
+    destruct (b =? 0); [apply IH; [exact A|lia]|].
+    destruct (b / 16 =? 15); [discriminate|].
+    destruct (curr + 1 + (b mod 16 + 1) <=? zlen d); [|discriminate]. apply IH; [exact A|lia].
+Qed.
+Lemma ext_twobyte_fuel d f : forall curr endp, all_bytes d = true -> Z.max 0 (endp - curr) < Z.of_nat f ->
+  ext_twobyte f d curr endp <> HFuel.
+Proof.
+  induction f as [|f IH]; intros curr endp A F; cbn [ext_twobyte].
+  - lia.
+  - destruct (curr <? endp) eqn:E; [|discriminate].
+    destruct (idx d curr) as [b|] eqn:I; [|discriminate].
+    destruct (b =? 0); [apply IH; [exact A|lia]|].
+    destruct (idx d (curr + 1)) as [l|] eqn:I2; [|discriminate]. pose proof (idx_byte d (curr + 1) l A I2).
+    destruct (curr + 2 + l <=? zlen d); [|discriminate]. apply IH; [exact A|lia].
+Qed.
+
+Theorem rtp_hdr_check_no_fuel d : all_bytes d = true -> rtp_hdr_check d <> HFuel.
+Proof.
+  intros A. unfold rtp_hdr_check. destruct (zlen d <? 4); [discriminate|].
+  destruct (idx d 0) as [b0|] eqn:I0; [|discriminate]. pose proof (idx_byte d 0 b0 A I0).
+  destruct (zlen d <? 12 + 4 * (b0 mod 16)); [discriminate|].
+  destruct ((b0 / 16) mod 2 =? 0); [discriminate|].
+  destruct (zlen d <? 12 + 4 * (b0 mod 16) + 4); [discriminate|].
+  destruct (be16_at d (12 + 4 * (b0 mod 16))) as [pr|]; [|discriminate].
+  destruct (be16_at d (12 + 4 * (b0 mod 16) + 2)) as [w|]; [|discriminate].
+  destruct (zlen d <? 12 + 4 * (b0 mod 16) + 4 + w * 4) eqn:E; [discriminate|].
+  assert (F : Z.max 0 (12 + 4 * (b0 mod 16) + 4 + w * 4 - (12 + 4 * (b0 mod 16) + 4)) < Z.of_nat (S (length d))).
+  { unfold zlen in E. lia. }
+  destruct (pr =? 48862); [apply ext_onebyte_fuel; assumption|].
+  destruct (pr =? 4096); [apply ext_twobyte_fuel; assumption|discriminate].
+Qed.
+
+(* what norm_hdr means: under every key K the parsed header holds, in written (key-sorted)
+   order, the ", "-joined values of the fields whose canonical key is K *)
+Theorem norm_hdr_lookup h body K :
+  hvals (norm_hdr h body) K =
+  map (fun e => join_vals (snd e))
+      (filter (fun e => bytes_eqb (canon_key (fst e)) K) (hsort (set_cl h body))).
+Proof. unfold norm_hdr. rewrite hvals_norm_fold. reflexivity. Qed.
